@@ -38,7 +38,7 @@ bool sqf::parser::config::parser::apply_to_confighost(::sqf::parser::config::bis
            } break;
            case ::sqf::parser::config::bison::astkind::CLASS: {
                auto nav = parent.append_or_replace(node.children[0].token.contents);
-               for (auto subnode : node.children[1].children)
+               for (auto& subnode : node.children[1].children)
                {
                    apply_to_confighost(subnode, confighost, nav);
                }
@@ -49,7 +49,7 @@ bool sqf::parser::config::parser::apply_to_confighost(::sqf::parser::config::bis
                {
                    __log(err::InheritedParentNotFound({ *node.token.path, node.token.line, node.token.column }, node.children[0].token.contents, node.children[1].token.contents));
                }
-               for (auto subnode : node.children[2].children)
+               for (auto& subnode : node.children[2].children)
                {
                    apply_to_confighost(subnode, confighost, nav);
                }
@@ -152,8 +152,49 @@ bool sqf::parser::config::parser::apply_to_confighost(::sqf::parser::config::bis
 }
 
 
+namespace
+{
+    // Applying the tree to the config host and destroying it recurse once per nesting level of
+    // braces: beyond this depth the input is refused instead of exhausting the stack.
+    const size_t max_nesting_depth = 10000;
+    bool nesting_too_deep(std::string& contents, const std::string& path, size_t& out_line, size_t& out_column)
+    {
+        using tokenizer = ::sqf::parser::config::tokenizer;
+        tokenizer t(contents.begin(), contents.end(), path);
+        size_t depth = 0;
+        while (true)
+        {
+            auto token = t.next();
+            switch (token.type)
+            {
+            case tokenizer::etoken::eof:
+            case tokenizer::etoken::invalid:
+                return false;
+            case tokenizer::etoken::s_curlyo:
+                if (++depth > max_nesting_depth)
+                {
+                    out_line = token.line;
+                    out_column = token.column;
+                    return true;
+                }
+                break;
+            case tokenizer::etoken::s_curlyc:
+                if (depth > 0) { depth--; }
+                break;
+            default:
+                break;
+            }
+        }
+    }
+}
 bool sqf::parser::config::parser::check_syntax(std::string contents, ::sqf::runtime::fileio::pathinfo pathinfo)
 {
+    size_t deep_line = 0, deep_column = 0;
+    if (nesting_too_deep(contents, pathinfo.physical, deep_line, deep_column))
+    {
+        __log(logmessage::config::ParseError({ pathinfo.physical, deep_line, deep_column }, "Braces are nested too deeply."));
+        return false;
+    }
     tokenizer t(contents.begin(), contents.end(), pathinfo.physical);
     ::sqf::parser::config::bison::astnode res;
     ::sqf::parser::config::bison::parser p(t, res, *this);
@@ -163,6 +204,12 @@ bool sqf::parser::config::parser::check_syntax(std::string contents, ::sqf::runt
 
 bool sqf::parser::config::parser::parse(::sqf::runtime::confighost& target, std::string contents, ::sqf::runtime::fileio::pathinfo pathinfo)
 {
+    size_t deep_line = 0, deep_column = 0;
+    if (nesting_too_deep(contents, pathinfo.physical, deep_line, deep_column))
+    {
+        __log(logmessage::config::ParseError({ pathinfo.physical, deep_line, deep_column }, "Braces are nested too deeply."));
+        return false;
+    }
     tokenizer t(contents.begin(), contents.end(), pathinfo.physical);
     ::sqf::parser::config::bison::astnode res;
     ::sqf::parser::config::bison::parser p(t, res, *this);
